@@ -17,7 +17,6 @@ INF = float("inf")
 STD = NormalDist()
 FAMILIES = ["uniform", "loguniform", "gaussian", "loggaussian"]
 COQ_FAMILY = {"uniform": "Uniform", "loguniform": "LogUniform", "gaussian": "Gaussian", "loggaussian": "LogGaussian"}
-KNOWN_CLASS = "uniform-limits-not-14dp"
 
 
 def hexf(x):
@@ -225,19 +224,109 @@ def gen_units(rng, n):
     return sorted(us)
 
 
-def gen_prior_case(rng, fam, n_units):
-    spec, shape = GEN[fam](rng)
+
+# ---------------------------------------------------------------------------
+# derived priors: what the harness expects (computed here, independently of the code)
+# ---------------------------------------------------------------------------
+
+def pymax(a, b):
+    return b if b > a else a
+
+
+def pymin(a, b):
+    return b if b < a else a
+
+
+def expected_derived(spec, d):
+    """(message prior, gate prior, expected constructor exception) of `derive(make_prior(spec), d)`."""
+    how = d["how"]
+    fam = spec["family"]
+    if how == "with_limits":
+        if fam == "loggaussian":       # Prior.with_limits calls cls(lower_limit=, upper_limit=): mean, sigma missing
+            return spec, spec, "TypeError"
+        a, b = unhex(d["a"]), unhex(d["b"])
+        gate = dict(spec)
+        gate["lo"] = hexf(pymax(a, unhex(spec["lo"])))
+        gate["hi"] = hexf(pymin(b, unhex(spec["hi"])))
+        return spec, gate, None
+    if how == "cls_with_limits":
+        a, b = unhex(d["a"]), unhex(d["b"])
+        if fam == "gaussian":
+            new = {"family": "gaussian", "mean": hexf((a + b) / 2), "sigma": hexf(b - a), "lo": hexf(-INF), "hi": hexf(INF)}
+        else:
+            new = {"family": "loguniform", "lo": hexf(pymax(0.000001, a)), "hi": hexf(b)}
+        return new, new, None
+    return spec, spec, None
+
+
+def gen_derived(rng, spec):
+    fam = spec["family"]
     lo, hi = unhex(spec["lo"]), unhex(spec["hi"])
+    hows = ["new", "from_dict", "from_config_dict", "pickle", "copy"]
+    if fam in ("uniform", "loggaussian"):
+        hows += ["with_limits"] * 4
+    else:
+        hows += ["cls_with_limits"] * 3
+    how = rng.choice(hows)
+    d = {"how": how}
+    if how == "with_limits":
+        if fam == "uniform" and math.isfinite(hi - lo):
+            f1, f2 = sorted([rng.uniform(-0.2, 1.2), rng.uniform(-0.2, 1.2)])
+            a, b = lo + f1 * (hi - lo), lo + f2 * (hi - lo)
+            if not pymax(a, lo) < pymin(b, hi):
+                a, b = lo + 0.25 * (hi - lo), lo + 0.5 * (hi - lo)
+        else:
+            a, b = 0.5, 2.0
+        d["a"], d["b"] = hexf(a), hexf(b)
+    elif how == "cls_with_limits":
+        if fam == "gaussian":
+            a = some_number(rng)
+            b = a + abs(some_number(rng)) + 10.0 ** rng.randint(-3, 3)
+            if not b - a > 0:              # absorbed: keep sigma = b - a positive
+                b = a + max(1.0, abs(a))
+        else:
+            a = rng.choice([1e-9, 1e-6, rng.uniform(1, 10) * 10.0 ** rng.randint(-8, 3)])
+            b = pymax(0.000001, a) * 10.0 ** rng.uniform(0.1, 8)
+        d["a"], d["b"] = hexf(a), hexf(b)
+    return d
+
+
+def gen_prior_case(rng, fam, n_units, derived=False):
+    spec, shape = GEN[fam](rng)
+    c = {"kind": "prior", "prior": spec, "shape": shape}
+    msg, gate = spec, spec
+    if derived:
+        d = gen_derived(rng, spec)
+        msg, gate, exc = expected_derived(spec, d)
+        c["derived"] = d
+        c["shape"] = "derived:" + d["how"]
+        if exc:
+            c["expect_ctor_exc"] = exc
+        if msg is not spec or gate is not spec:
+            c["msg_prior"], c["gate_prior"] = msg, gate
+    c["obs"] = gen_obs(rng, msg, gate, n_units)
+    return c
+
+
+def gen_obs(rng, msg, gate, n_units):
+    fam = msg["family"]
+    lo, hi = unhex(gate["lo"]), unhex(gate["hi"])
     obs = []
     for k, u in enumerate(gen_units(rng, n_units)):
         obs.append({"t": "raw", "u": hexf(u)})
-        obs.append({"t": "value", "u": hexf(u), "ignore": False})
+        o = {"t": "value", "u": hexf(u), "ignore": False, "kw": k % 2 == 0}     # every other call relies on the default argument
+        if u in (0.0, 1.0) and rng.random() < 0.5:
+            o["ut"] = "int"
+        elif rng.random() < 0.1:
+            o["ut"] = "np"
+        obs.append(o)
         if k % 3 == 0:
             obs.append({"t": "value", "u": hexf(u), "ignore": True})
         if k % 2 == 0:
             obs.append({"t": "rt", "u": hexf(u)})
     for u in rng.sample(MALFORMED_U, 2):
-        obs.append({"t": "value", "u": hexf(u), "ignore": rng.random() < 0.3})
+        ig = rng.random() < 0.3
+        obs.append({"t": "value", "u": hexf(u), "ignore": ig, "kw": ig or rng.random() < 0.5})
     obs.append({"t": "limits"})
     xs = []
     for x in (lo, hi):
@@ -247,21 +336,24 @@ def gen_prior_case(rng, fam, n_units):
         xs += [lo + (hi - lo) * rng.random(), (lo + hi) / 2 if math.isfinite(lo + hi) else lo]
         xs += [math.nextafter(lo, -INF), math.nextafter(hi, INF)]
     else:
-        m, s = unhex(spec.get("mean", 0.0)), unhex(spec.get("sigma", 1.0))
+        m, s = unhex(msg.get("mean", 0.0)), unhex(msg.get("sigma", 1.0))
         c = m + s * rng.uniform(-3, 3)
         xs.append(math.exp(c) if fam == "loggaussian" and c < 700 else c)
     for x in sorted(set(xs)):
         if fam in ("loguniform", "loggaussian") and x < 0:
             continue
         obs.append({"t": "unit", "x": hexf(x)})
-    for _ in range(3):
-        if rng.random() < 0.6:
-            l, u = 0.0, 1.0
+    for k in range(4):
+        if k == 0:
+            l, u, kw = 0.0, 1.0, False                 # p.random() with default arguments
+        elif rng.random() < 0.5:
+            l, u, kw = 0.0, 1.0, True
         else:
             a, b = sorted([rng.random(), rng.random()])
             l, u = rng.choice([(a, b), (0.0, b), (a, 1.0)])
-        obs.append({"t": "random", "l": hexf(l), "u": hexf(u), "seed": rng.randint(0, 10 ** 6)})
-    return {"kind": "prior", "prior": spec, "shape": shape, "obs": obs}
+            kw = True
+        obs.append({"t": "random", "l": hexf(l), "u": hexf(u), "seed": rng.randint(0, 10 ** 6), "kw": kw})
+    return obs
 
 
 def gen_vector_case(rng):
@@ -277,116 +369,249 @@ def gen_vector_case(rng):
             "ignore": rng.random() < 0.3}
 
 
+def fixed_case(rng, spec, shape, n_units, extra_units=()):
+    c = {"kind": "prior", "prior": spec, "shape": shape, "obs": gen_obs(rng, spec, spec, n_units)}
+    for u in extra_units:
+        c["obs"].insert(0, {"t": "value", "u": hexf(u), "ignore": False, "kw": False})
+        c["obs"].insert(0, {"t": "raw", "u": hexf(u)})
+    return c
+
+
 def gen_cases(ctx):
     rng = ctx.rng
     thorough = ctx.tier == "thorough"
-    per_family = 260 if thorough else 56
-    n_units = 28 if thorough else 20
+    per_family = 220 if thorough else 44
+    n_units = 26 if thorough else 18
     cases = []
-    # fixed regression cases first (reading-time suspicion of DESIGN.md section 6 and its neighbours)
+    # fixed regression cases first: the reading-time suspicion of DESIGN.md section 6, the defects found since
+    G = lambda m, s, lo=-INF, hi=INF: {"family": "gaussian", "mean": hexf(m), "sigma": hexf(s), "lo": hexf(lo), "hi": hexf(hi)}
     fixed = [
-        ({"family": "uniform", "lo": hexf(0.12345678901234568), "hi": hexf(0.123456789012346)}, "many-decimals"),
-        ({"family": "uniform", "lo": hexf(0.0), "hi": hexf(8e-15)}, "zero-based-tiny"),
-        ({"family": "uniform", "lo": hexf(0.0), "hi": hexf(1e300)}, "overflow"),
-        ({"family": "uniform", "lo": hexf(0.0), "hi": hexf(1.0)}, "unit"),
-        ({"family": "loguniform", "lo": hexf(1e-6), "hi": hexf(1.0)}, "unit"),
-        ({"family": "gaussian", "mean": hexf(0.0), "sigma": hexf(1.0), "lo": hexf(-INF), "hi": hexf(INF)}, "unlimited"),
-        ({"family": "loggaussian", "mean": hexf(0.0), "sigma": hexf(1.0), "lo": hexf(0.0), "hi": hexf(INF)}, "unlimited"),
+        ({"family": "uniform", "lo": hexf(0.12345678901234568), "hi": hexf(0.123456789012346)}, "many-decimals", ()),
+        ({"family": "uniform", "lo": hexf(0.0), "hi": hexf(8e-15)}, "zero-based-tiny", ()),
+        ({"family": "uniform", "lo": hexf(0.0), "hi": hexf(1e300)}, "overflow", ()),
+        ({"family": "uniform", "lo": hexf(-4.0), "hi": hexf(1.5999999999999996)}, "many-decimals", (1 - 2.0 ** -53,)),
+        ({"family": "uniform", "lo": hexf(0.0), "hi": hexf(1.0)}, "unit", ()),
+        ({"family": "uniform", "lo": hexf(0.0), "hi": hexf(1e6)}, "unit", (0.14855617519874176, 0.1485561751987418)),
+        ({"family": "loguniform", "lo": hexf(1e-6), "hi": hexf(1.0)}, "unit", ()),
+        ({"family": "loguniform", "lo": hexf(1e-200), "hi": hexf(1e200)}, "ratio-overflow", (0.5,)),
+        ({"family": "loguniform", "lo": hexf(1e-320), "hi": hexf(1.0)}, "ratio-overflow", (0.5,)),
+        (G(0.0, 1.0), "unlimited", (1e-17, 1e-12)),
+        (G(0.0, 1.0, -9.0, -8.5), "far-tail", (3e-18, 5e-18)),
+        (G(0.0, 1.0, 8.5, 9.0), "far-tail", ()),
+        ({"family": "loggaussian", "mean": hexf(0.0), "sigma": hexf(1.0), "lo": hexf(0.0), "hi": hexf(INF)}, "unlimited", (1e-17,)),
     ]
-    for spec, shape in fixed:
-        c = gen_prior_case(rng, spec["family"], n_units)
-        c["prior"], c["shape"] = spec, shape
-        lo, hi = unhex(spec["lo"]), unhex(spec["hi"])
-        c["obs"] = [o for o in c["obs"] if o["t"] != "unit"]
-        for x in (lo, hi):
-            if math.isfinite(x):
-                c["obs"].append({"t": "unit", "x": hexf(x)})
-        cases.append(c)
+    for spec, shape, extra in fixed:
+        cases.append(fixed_case(rng, spec, shape, n_units, extra))
+    c = {"kind": "prior", "prior": {"family": "uniform", "lo": hexf(0.0), "hi": hexf(1.0)}, "shape": "derived:with_limits",
+         "derived": {"how": "with_limits", "a": hexf(0.2), "b": hexf(0.4)}}
+    c["msg_prior"], c["gate_prior"], _ = expected_derived(c["prior"], c["derived"])
+    c["obs"] = gen_obs(rng, c["msg_prior"], c["gate_prior"], n_units)
+    cases.append(c)
     for fam in FAMILIES:
-        for _ in range(per_family):
-            cases.append(gen_prior_case(rng, fam, n_units))
-    for _ in range(200 if thorough else 60):
+        for k in range(per_family):
+            cases.append(gen_prior_case(rng, fam, n_units, derived=(k % 4 == 3)))
+    for _ in range(160 if thorough else 40):
         cases.append(gen_vector_case(rng))
     return cases
 
 
 # ---------------------------------------------------------------------------
-# classes (computed from the case only)
+# classes: labels computed from the INPUT of the failing observation (prior parameters, unit value, how the
+# prior was derived), never from the outcome.  Each known finding matches exactly one class.
 # ---------------------------------------------------------------------------
 
-def prior_classes(spec):
-    if spec["family"] != "uniform":
-        return []
+CL_RATIO = "loguniform-ratio-not-finite"
+CL_TAIL = "normal-lower-tail-cancellation"
+CL_LASTBIT = "last-bit-neighbours"
+CL_WITHLIMITS = "with-limits-instance-method"
+TAIL_U = 6e-8          # below this the absolute resolution 2^-54 of `1 - 2.0*(1.0 - unit)` exceeds 1e-9 relative
+
+
+def ratio_overflows(spec):
+    if spec["family"] != "loguniform":
+        return False
     lo, hi = unhex(spec["lo"]), unhex(spec["hi"])
-    if np_round14(lo) != lo or np_round14(hi) != hi:
-        return [KNOWN_CLASS]
-    return []
+    try:
+        return not math.isfinite(hi / lo)
+    except (OverflowError, ZeroDivisionError):
+        return True
 
 
-def case_classes(c):
-    if c["kind"] == "prior":
-        return prior_classes(c["prior"])
+def input_classes(c, msg, u=None):
     out = []
-    for s in c["priors"]:
-        out += prior_classes(s)
-    return sorted(set(out))
+    if ratio_overflows(msg):
+        out.append(CL_RATIO)
+    if msg["family"] in ("gaussian", "loggaussian") and u is not None and 0.0 < u < TAIL_U:
+        out.append(CL_TAIL)
+    if c.get("derived", {}).get("how") == "with_limits":
+        out.append(CL_WITHLIMITS)
+    return out
 
 
 # ---------------------------------------------------------------------------
-# property oracle (direct statement of C02 on the implementation's outputs)
+# property oracle (direct statement of C02 on the implementation's outputs; references from the stdlib only)
 # ---------------------------------------------------------------------------
 
-def ref_cdf_lower(z):
-    """Phi(z), relatively accurate in the lower tail."""
+SQRT2PI = math.sqrt(2 * math.pi)
+
+
+def std_pdf(z):
+    return math.exp(-0.5 * z * z) / SQRT2PI if abs(z) < 38 else 0.0
+
+
+def std_quantile(u):
+    """Standard normal quantile for 0 < u < 1 (statistics.NormalDist: Wichura AS241, ~1e-16 relative)."""
+    return STD.inv_cdf(u)
+
+
+def std_cdf(z):
     return 0.5 * math.erfc(-z / math.sqrt(2))
 
 
-def ref_cdf_upper(z):
-    """1 - Phi(z), relatively accurate in the upper tail."""
-    return 0.5 * math.erfc(z / math.sqrt(2))
+class Decl:
+    """The distribution a prior declares (family + parameters), with stdlib quantile / cdf."""
+
+    def __init__(self, spec):
+        self.fam = spec["family"]
+        self.lo, self.hi = unhex(spec["lo"]), unhex(spec["hi"])
+        self.mean, self.sigma = unhex(spec.get("mean", 0.0)), unhex(spec.get("sigma", 1.0))
+        if self.fam == "loguniform":
+            self.l0, self.l1 = math.log10(self.lo), math.log10(self.hi)
+        self.ok = True
+        if self.fam == "uniform" and not math.isfinite(self.hi - self.lo):
+            self.ok = False
+
+    def z(self, u):
+        return std_quantile(u)
+
+    def quantile(self, u):
+        """Quantile at 0 < u < 1, or None when it is not representable (overflow)."""
+        if not (0.0 < u < 1.0) or not self.ok:
+            return None
+        if self.fam == "uniform":
+            return self.lo + u * (self.hi - self.lo)
+        if self.fam == "loguniform":
+            y = self.l0 + u * (self.l1 - self.l0)
+            return 10.0 ** y if y < 308.2 else None
+        z = std_quantile(u)
+        y = self.mean + self.sigma * z
+        if self.fam == "gaussian":
+            return y
+        return math.exp(y) if -700 < y < 700 else None
+
+    def cdf(self, x):
+        if self.fam == "uniform":
+            return min(1.0, max(0.0, (x - self.lo) / (self.hi - self.lo)))
+        if self.fam == "loguniform":
+            return min(1.0, max(0.0, (math.log10(x) - self.l0) / (self.l1 - self.l0))) if x > 0 else 0.0
+        if self.fam == "gaussian":
+            return std_cdf((x - self.mean) / self.sigma)
+        return std_cdf((math.log(x) - self.mean) / self.sigma) if x > 0 else 0.0
+
+    def value_margin(self, q, u):
+        """How far inside the limits the quantile has to be before a return is demanded (conditioning of the map)."""
+        if self.fam == "uniform":
+            return 1e-9 * (self.hi - self.lo) + 1e-12 * max(abs(self.lo), abs(self.hi)) + 1.01e-14
+        if self.fam == "loguniform":
+            return abs(q) * (1e-9 * (self.l1 - self.l0) * 2.31 + 2.31e-15 * (abs(self.l0) + abs(self.l1) + 1) + 1e-12)
+        z = abs(std_quantile(u))
+        if self.fam == "gaussian":
+            return self.sigma * 1e-9 * (1 + z) + 1e-12 * (abs(self.mean) + abs(q))
+        y = math.log(q)
+        return q * (self.sigma * 1e-9 * (1 + z) + 1e-15 * (abs(y) + abs(self.mean) + 2) + 1e-12)
+
+    def mismatch(self, v, u):
+        """Does the returned value v disagree with the declared quantile at 0 < u < 1 ?  (message, or None)"""
+        q = self.quantile(u)
+        if q is None or math.isnan(v):
+            return None if q is None else "value is nan, declared quantile %r" % q
+        if self.fam == "uniform":
+            tol = 1e-9 * (self.hi - self.lo) + 1e-12 * max(abs(self.lo), abs(self.hi)) + 1.01e-14
+            return None if abs(v - q) <= tol else "uniform quantile is %r, value %r" % (q, v)
+        if self.fam == "loguniform":
+            if q < 1e-300:
+                return None                       # subnormal results carry few bits
+            if not v > 0:
+                return "log-uniform quantile is %r, value %r" % (q, v)
+            y = self.l0 + u * (self.l1 - self.l0)
+            tol = 1e-9 * (self.l1 - self.l0) + 1e-12 * (1 + abs(self.l0) + abs(self.l1))
+            return None if abs(math.log10(v) - y) <= tol else "log-uniform quantile is 10**%r, value 10**%r" % (y, math.log10(v))
+        zr = std_quantile(u)
+        if self.fam == "gaussian":
+            zc = (v - self.mean) / self.sigma
+            cond = 9e-16 * (abs(v) + abs(self.mean)) / self.sigma if math.isfinite(v) else 0.0
+        else:
+            if q < 1e-300:
+                return None
+            if v < 0:
+                return "log-normal value %r is negative" % v
+            y = -INF if v == 0 else (INF if math.isinf(v) else math.log(v))
+            zc = (y - self.mean) / self.sigma
+            cond = 9e-16 * (2 + (abs(y) if math.isfinite(y) else 0.0) + abs(self.mean)) / self.sigma
+        # compared in score space, relative to |z|.  Above TAIL_U the binary64 resolution of the unit value itself
+        # (2.3e-16 absolute, i.e. 2.3e-16 / pdf(z) in score) is granted; below it the unit value is represented to
+        # full relative precision and so must be the answer
+        tol = 1e-9 * (1 + abs(zr)) + cond
+        if u >= TAIL_U:
+            p = std_pdf(zr)
+            tol += 2.3e-16 / p if p > 0 else INF
+        if abs(zc - zr) <= tol:
+            return None
+        return "declared quantile has score %r (value %r), returned value %r has score %r" % (zr, q, v, zc)
 
 
-def unit_mismatch(z, u, slack):
-    """Does the standard-normal score z disagree with unit value u (beyond binary64 resolution of u)?"""
-    if math.isnan(z):
-        return True
-    if u <= 0.5:
-        return abs(ref_cdf_lower(z) - u) > 2.3e-16 + 1e-9 * u + slack
-    return abs(ref_cdf_upper(z) - (1.0 - u)) > 2.3e-16 + 1e-9 * (1.0 - u) + slack
+def unit_margin(u):
+    return 1e-9 * min(u, 1 - u) + (2.3e-16 if u >= TAIL_U else 0.0)
 
 
-def mono_noise(fam, lo, hi, mean, sigma, v1, v2):
-    """Is the decrease v1 -> v2 (v2 < v1) explained by last-bit noise of the special functions?  scipy's
-    ndtr(sqrt2*erfinv(.)) is monotone only up to about one ulp of the probability; the transforms scale that noise by
-    the width (uniform), by ln(10)*decades (log-uniform), by sigma (gaussian families).  Accuracy of the special
-    functions is a hypothesis of the theorems, not a subject of this check."""
+def must_return(decl, glo, ghi, u):
+    """True when the declared quantile at u lies inside the gate limits with a safety margin: value_for then has
+    to RETURN (not raise)."""
+    if not (0.0 < u < 1.0):
+        return False
+    m = unit_margin(u)
+    u1, u2 = u - m, u + m
+    if not (0.0 < u1 and u2 < 1.0):
+        return False
+    q1, q2 = decl.quantile(u1), decl.quantile(u2)
+    if q1 is None or q2 is None or not (math.isfinite(q1) and math.isfinite(q2)):
+        return False
+    if decl.fam in ("loguniform", "loggaussian") and not (q1 > 1e-300):
+        return False
+    return glo + decl.value_margin(q1, u1) < q1 and q2 < ghi - decl.value_margin(q2, u2)
+
+
+def mono_noise(fam, lo, hi, mean, sigma, v1, v2, rounded):
+    """Is the decrease v1 -> v2 (v2 < v1) no larger than last-bit noise of ndtr(sqrt2*erfinv(.)) (about one ulp of
+    the probability, scaled by the width / ln10*decades / sigma) ?  Decides only between the failure kinds
+    `monotone-last-bit` (a known finding for neighbouring unit values) and `monotone`."""
     if not (math.isfinite(v1) and math.isfinite(v2)):
         return False
     m = max(abs(v1), abs(v2))
     if fam == "uniform":
-        return v1 - v2 <= 8e-16 * (hi - lo) + 4 * ulp(m) + 1.01e-14   # + one rounding step of the 14-decimal grid
+        return v1 - v2 <= 4.5e-16 * (hi - lo) + 2 * ulp(m) + (1.01e-14 if rounded else 0.0)
     if fam == "loguniform":
-        if not (v1 > 0 and v2 > 0 and math.isfinite(hi / lo)):
+        if not (v1 > 0 and v2 > 0):
             return False
-        dec = math.log10(hi / lo)
-        return v1 - v2 <= m * (8e-16 * 2.31 * (dec + abs(math.log10(lo)) + abs(math.log10(hi))) + 2e-15)
+        dec = (math.log10(hi) - math.log10(lo))
+        return v1 - v2 <= m * (4.5e-16 * 2.31 * (dec + abs(math.log10(lo)) + abs(math.log10(hi))) + 1e-15)
     if fam == "gaussian":
         z = abs(v1 - mean) / sigma
-        return v1 - v2 <= sigma * 8e-16 * max(1.0, z) + 4 * ulp(m) + 4 * ulp(mean)
+        return v1 - v2 <= sigma * 4.5e-16 * max(1.0, z) + 2 * ulp(m) + 2 * ulp(mean)
     if not (v1 > 0 and v2 > 0):
         return False
     y = math.log(v1)
     z = abs(y - mean) / sigma
-    return v1 - v2 <= m * (sigma * 8e-16 * max(1.0, z) + 4.5e-16 * (2 + abs(y) + abs(mean)))
+    return v1 - v2 <= m * (sigma * 4.5e-16 * max(1.0, z) + 2.3e-16 * (2 + abs(y) + abs(mean)))
 
 
 class Failures:
     def __init__(self):
-        self.items = []   # (kind, message)
+        self.items = []   # (kind, message, classes)
 
-    def add(self, kind, msg):
-        if len(self.items) < 6:
-            self.items.append((kind, msg))
+    def add(self, kind, msg, classes=()):
+        if len(self.items) < 40:
+            self.items.append((kind, msg, list(classes)))
 
 
 def within(lo, v, hi):
@@ -394,20 +619,38 @@ def within(lo, v, hi):
 
 
 def oracle_prior(c, r):
-    """Returns a list of (failure kind, message)."""
+    """Returns a list of (failure kind, message, classes)."""
     F = Failures()
-    spec = c["prior"]
-    fam = spec["family"]
-    lo, hi = unhex(spec["lo"]), unhex(spec["hi"])
-    mean, sigma = unhex(spec.get("mean", 0.0)), unhex(spec.get("sigma", 1.0))
-    width = hi - lo
+    msg = c.get("msg_prior") or c["prior"]
+    gate = c.get("gate_prior") or c["prior"]
+    how = c.get("derived", {}).get("how")
+    fam = msg["family"]
+    lo, hi = unhex(gate["lo"]), unhex(gate["hi"])                  # limits of the gate
+    mlo, mhi = unhex(msg["lo"]), unhex(msg["hi"])                  # parameters of the message
+    mean, sigma = unhex(msg.get("mean", 0.0)), unhex(msg.get("sigma", 1.0))
+    # the distribution the prior DECLARES: its class with its own parameters / limits
+    decl = Decl(gate if (how == "with_limits" and fam == "uniform") else msg)
+    mdecl = Decl(msg)
+    width = mhi - mlo
+    ratio_bad = ratio_overflows(msg)
+    # derived priors: the object must carry the parameters the harness expects
+    d = r.get("described", {})
+    exp_cls = {"uniform": "UniformPrior", "loguniform": "LogUniformPrior", "gaussian": "GaussianPrior", "loggaussian": "LogGaussianPrior"}[fam]
+    if d:
+        want = {"cls": exp_cls, "lo": hexf(lo), "hi": hexf(hi)}
+        if fam in ("gaussian", "loggaussian"):
+            want["mean"], want["sigma"] = hexf(mean), hexf(sigma)
+        got = {k: (hexf(unhex(v)) if k != "cls" else v) for k, v in d.items()}
+        if got != want:
+            F.add("derived", "prior obtained by %s is %s, expected %s" % (how or "constructor", got, want))
+    cls = lambda u=None: input_classes(c, msg, u)
     raw_at, val_at, ign_at = {}, {}, {}
-    # the cdf at a limit is clamped inside a window of 1e-14 around 0 / 1; when the conditioning of (log10 x - shift) / scale
-    # is worse than that window (very narrow log-uniform ranges) or the scale overflows, unit values at the limits are not
-    # required to land in [0, 1]
-    degenerate = (fam == "uniform" and not math.isfinite(width)) or (
-        fam == "loguniform" and (not math.isfinite(hi / lo) or
-                                 9e-16 * (2 + abs(math.log10(lo)) + abs(math.log10(hi))) / math.log10(hi / lo) > 5e-15))
+    # the cdf at a limit is clamped inside a window of 1e-14 around 0 / 1; when the conditioning of
+    # (log10 x - shift) / scale is worse than that window (very narrow log-uniform ranges) unit values at the limits
+    # are not required to land in [0, 1]
+    narrow = fam == "loguniform" and not ratio_bad and \
+        9e-16 * (2 + abs(math.log10(mlo)) + abs(math.log10(mhi))) / math.log10(mhi / mlo) > 5e-15
+    wide_uniform = fam == "uniform" and not math.isfinite(width)
     for o, x in zip(c["obs"], r["obs"]):
         t = o["t"]
         if t == "raw":
@@ -440,15 +683,18 @@ def oracle_prior(c, r):
             if not (0 < u < 1) or not math.isfinite(v):
                 continue
             if fam == "uniform":
-                # a rounded value outside the limits is reported as out-of-limit; its cdf is undefined (nan)
-                if not (width > 0 and math.isfinite(width)) or not within(lo, v, hi):
+                # a value outside the message's support has no cdf (nan)
+                if not (width > 0 and math.isfinite(width)) or not within(mlo, v, mhi):
                     continue
-                tol = 1.01e-14 + (5.1e-15 + 4.5e-16 * max(abs(lo), abs(hi))) / width
+                tol = 1.01e-14 + (5.1e-15 + 4.5e-16 * max(abs(mlo), abs(mhi))) / width
             elif fam == "loguniform":
-                if not (v > 1e-300 and math.isfinite(hi / lo)):   # subnormal results carry few bits
+                if not v > 1e-300:                     # subnormal results carry few bits
                     continue
-                dec = math.log10(hi / lo)
-                tol = 1.01e-14 + 9e-16 * (2 + abs(math.log10(lo)) + abs(math.log10(hi))) / dec
+                if ratio_bad:
+                    tol = 1.01e-14
+                else:
+                    dec = math.log10(mhi / mlo)
+                    tol = 1.01e-14 + 9e-16 * (2 + abs(math.log10(mlo)) + abs(math.log10(mhi))) / dec
             elif fam == "gaussian":
                 tol = 1e-15 + 1e-13 * min(u, 1 - u) + 1e-15 * (abs(v) + abs(mean)) / sigma
             else:
@@ -458,33 +704,56 @@ def oracle_prior(c, r):
             # nan = the recomputed unit argument fell outside the clamp window [-1e-14, 1+1e-14] of transform.ndtri; that is
             # within the conditioning error of the computation when u is this close to an end (narrow log-uniform ranges)
             cond = tol - 1.01e-14
-            if math.isnan(w) and fam == "loguniform" and (u + cond > 1 + 1e-14 or u - cond < -1e-14):
+            if math.isnan(w) and fam == "loguniform" and not ratio_bad and (u + cond > 1 + 1e-14 or u - cond < -1e-14):
                 continue
             if not abs(w - u) <= tol:
-                F.add("inverse", "unit_value_for(value_for(%r)) = %r (value %r), off by %.3g > %.3g" % (u, w, v, abs(w - u), tol))
+                F.add("inverse", "unit_value_for(value_for(%r)) = %r (value %r), off by %.3g > %.3g" % (u, w, v, abs(w - u), tol), cls(u))
         elif t == "unit":
             xx = unhex(o["x"])
             if "ok" not in x:
                 F.add("exception", "unit_value_for(%r) raised %s" % (xx, x.get("exc")))
             else:
                 w = unhex(x["ok"])
-                if within(lo, xx, hi) and not (0.0 <= w <= 1.0) and not degenerate:
-                    F.add("unit-range", "unit_value_for(%r) = %r is not in [0, 1]" % (xx, w))
+                if within(mlo, xx, mhi) and not wide_uniform and not narrow:
+                    if not (0.0 <= w <= 1.0):
+                        F.add("unit-range", "unit_value_for(%r) = %r is not in [0, 1]" % (xx, w), cls())
+                    elif abs(w - mdecl.cdf(xx)) > 1.01e-14 + 1e-9 + (1e-6 if fam != "uniform" else 0.0):
+                        F.add("unit-value", "unit_value_for(%r) = %r, declared cdf %r" % (xx, w, mdecl.cdf(xx)), cls())
         elif t == "limits":
             if "lower" not in x:
                 F.add("exception", "unit limits raised %s" % x.get("exc"))
             else:
                 a, b = unhex(x["lower"]), unhex(x["upper"])
-                if not degenerate and not (0.0 <= a <= b <= 1.0):
-                    F.add("unit-range", "unit limits (%r, %r) are not ordered inside [0, 1]" % (a, b))
+                if not wide_uniform and not narrow and not (0.0 <= a <= b <= 1.0):
+                    F.add("unit-range", "unit limits (%r, %r) are not ordered inside [0, 1]" % (a, b), cls())
         elif t == "random":
+            l, uu = unhex(o["l"]), unhex(o["u"])
+            # the unit value the draw should use, from the declared cdf of the limits (bounded families: the documented
+            # window [1e-14, 1 - 1e-14]) and the library's own random number
+            if fam in ("uniform", "loguniform") and how != "with_limits":
+                lul, uul = 1e-14, 1 - 1e-14
+            elif fam == "uniform" and wide_uniform:
+                lul, uul = 0.0, 1.0
+            else:
+                lul = mdecl.cdf(lo) if lo > -INF else 0.0
+                uul = mdecl.cdf(hi) if hi < INF else 1.0
+            a, b = max(l, lul), min(uu, uul)
+            U = a + (b - a) * unhex(x["r"]) if "r" in x and a < b else None
             if "ok" in x:
                 v = unhex(x["ok"])
                 if not within(lo, v, hi):
-                    F.add("out-of-limit", "random(%r, %r) [seed %d] drew %r outside the limits [%r, %r]" % (
-                        unhex(o["l"]), unhex(o["u"]), o["seed"], v, lo, hi))
+                    F.add("out-of-limit", "random(%r, %r) [seed %d] drew %r outside the limits [%r, %r]" % (l, uu, o["seed"], v, lo, hi))
+                elif U is not None and 0 < U < 1:
+                    mm = mdecl.mismatch(v, U)
+                    if mm:
+                        F.add("random-quantile", "random(%r, %r) [seed %d] should map unit value %r: %s" % (l, uu, o["seed"], U, mm), cls(U))
             elif x.get("exc") != "PriorLimitException":
                 F.add("exception", "random() raised %s: %s" % (x.get("exc"), x.get("msg")))
+            elif U is not None and must_return(mdecl, lo, hi, U) and \
+                    must_return(mdecl, lo, hi, min(U * (1 + 1e-6), 0.999999)) and must_return(mdecl, lo, hi, U * (1 - 1e-6)):
+                F.add("random-raises", "random(%r, %r) [seed %d] raised the limit exception although the unit window [%r, %r] "
+                      "is not empty (unit value %r, declared quantile %r inside [%r, %r])" % (
+                          l, uu, o["seed"], a, b, U, mdecl.quantile(U), lo, hi), cls(U))
     # gate consistency: raise exactly when the message value is outside the limits; returned value is that value
     for uh, raw in raw_at.items():
         if uh in val_at:
@@ -498,61 +767,44 @@ def oracle_prior(c, r):
                 if fam != "uniform" and hexf(v) != hexf(raw):
                     F.add("gate", "value_for(%r) returned %r, the message maps to %r" % (unhex(uh), v, raw))
                 if fam == "uniform" and not abs(v - raw) <= 5.01e-15 + 2 * ulp(raw):
-                    F.add("out-of-limit" if not within(lo, v, hi) else "quantile",
-                          "value_for(%r) returned %r, more than 5e-15 from the mapped value %r" % (unhex(uh), v, raw))
+                    F.add("rounding", "value_for(%r) returned %r, more than 5e-15 from the mapped value %r" % (unhex(uh), v, raw))
         if uh in ign_at and math.isfinite(raw):
             v = ign_at[uh]
             if fam != "uniform" and hexf(v) != hexf(raw):
                 F.add("gate", "value_for(%r, ignore) returned %r, the message maps to %r" % (unhex(uh), v, raw))
             if fam == "uniform" and math.isfinite(raw * 1e14) and not abs(v - raw) <= 5.01e-15 + 2 * ulp(raw):
-                F.add("quantile", "value_for(%r, ignore) returned %r, mapped value %r" % (unhex(uh), v, raw))
-    # monotone in the unit value (message values and returned values)
-    for name, table in (("message value", raw_at), ("returned value", val_at), ("returned value (limits ignored)", ign_at)):
-        pts = sorted((unhex(uh), v) for uh, v in table.items() if v is not None and 0.0 <= unhex(uh) <= 1.0 and not math.isnan(v))
-        for (u1, v1), (u2, v2) in zip(pts, pts[1:]):
-            if v2 < v1 and not mono_noise(fam, lo, hi, mean, sigma, v1, v2):
-                F.add("monotone", "%s decreases: f(%r) = %r > f(%r) = %r" % (name, u1, v1, u2, v2))
-                break
-    # quantile of the declared distribution (only for values that were returned through the gate)
+                F.add("rounding", "value_for(%r, ignore) returned %r, mapped value %r" % (unhex(uh), v, raw))
+    # the declared quantile decides whether value_for has to return, and what it has to return
     for uh, v in val_at.items():
         u = unhex(uh)
-        if v is None or not (0.0 < u < 1.0):
+        if not (0.0 < u < 1.0):
             continue
-        raw = raw_at.get(uh, v)
-        if fam == "uniform":
-            if not math.isfinite(width):
-                continue
-            q = lo + u * width
-            if not abs(raw - q) <= 1e-9 * width + 1e-12 * max(abs(lo), abs(hi)):
-                F.add("quantile", "uniform quantile at %r is %r, value_for maps to %r" % (u, q, raw))
-        elif fam == "loguniform":
-            if not (raw > 0) or not math.isfinite(hi / lo):
-                F.add("quantile", "log-uniform value %r at %r is not positive/finite" % (raw, u))
-                continue
-            if raw < 1e-300:       # subnormal results carry few bits
-                continue
-            l0, l1 = math.log10(lo), math.log10(hi)
-            q = l0 + u * (l1 - l0)
-            if not abs(math.log10(raw) - q) <= 1e-9 * (l1 - l0) + 1e-12 * (1 + abs(l0) + abs(l1)):
-                F.add("quantile", "log10 of the log-uniform quantile at %r is %r, value_for maps to 10**%r" % (u, q, math.log10(raw)))
-        elif fam == "gaussian":
-            z = (raw - mean) / sigma
-            slack = 0.4 * 9e-16 * (abs(raw) + abs(mean)) / sigma
-            if unit_mismatch(z, u, slack):
-                F.add("quantile", "normal quantile: value_for(%r) = %r has score %r, i.e. cdf %r" % (u, raw, z, ref_cdf_lower(z)))
-        else:
-            y_ref = mean + sigma * STD.inv_cdf(u) if 1e-300 < u < 1 else None
-            if y_ref is None or not (-690 < y_ref < 700):
-                continue           # exp under/overflows legitimately; subnormal results carry few bits
-            if raw < 0 or math.isnan(raw):
-                F.add("quantile", "log-normal value_for(%r) = %r but the quantile is exp(%r)" % (u, raw, y_ref))
-                continue
-            # exp(-inf) = 0 for u below the resolution 2^-54 of `1 - 2(1 - u)`: score -inf, cdf 0, compared in unit space
-            y = -INF if raw == 0 else (INF if math.isinf(raw) else math.log(raw))
-            z = (y - mean) / sigma
-            slack = 0.4 * 9e-16 * (2 + (abs(y) if math.isfinite(y) else 0.0) + abs(mean)) / sigma
-            if unit_mismatch(z, u, slack):
-                F.add("quantile", "log-normal quantile: value_for(%r) = %r has score %r, i.e. cdf %r" % (u, raw, z, ref_cdf_lower(z)))
+        if v is None:
+            if must_return(decl, lo, hi, u):
+                F.add("must-return", "value_for(%r) raised the limit exception although the declared quantile %r lies inside "
+                      "the limits [%r, %r]" % (u, decl.quantile(u), lo, hi), cls(u))
+            continue
+        mm = decl.mismatch(raw_at.get(uh, v) if fam == "uniform" else v, u)
+        if mm:
+            F.add("quantile", "value_for(%r): %s" % (u, mm), cls(u))
+    for uh, v in ign_at.items():
+        u = unhex(uh)
+        if 0.0 < u < 1.0 and uh not in val_at:
+            mm = mdecl.mismatch(raw_at.get(uh, v) if fam == "uniform" else v, u)
+            if mm and how != "with_limits":
+                F.add("quantile", "value_for(%r, ignore): %s" % (u, mm), cls(u))
+    # monotone in the unit value (message values and returned values)
+    for name, table, rounded in (("message value", raw_at, False), ("returned value", val_at, True),
+                                 ("returned value (limits ignored)", ign_at, True)):
+        pts = sorted((unhex(uh), v) for uh, v in table.items() if v is not None and 0.0 <= unhex(uh) <= 1.0 and not math.isnan(v))
+        for (u1, v1), (u2, v2) in zip(pts, pts[1:]):
+            if v2 < v1:
+                if mono_noise(fam, mlo, mhi, mean, sigma, v1, v2, rounded and fam == "uniform"):
+                    F.add("monotone-last-bit", "%s decreases in the last bits: f(%r) = %r > f(%r) = %r" % (name, u1, v1, u2, v2),
+                          [CL_LASTBIT] if u2 - u1 <= 2.0 ** -49 else [])
+                else:
+                    F.add("monotone", "%s decreases: f(%r) = %r > f(%r) = %r" % (name, u1, v1, u2, v2))
+                break
     return F.items
 
 
@@ -574,18 +826,25 @@ def oracle_vector(c, r):
             F.add("gate", "vector_from_unit_vector returned although a prior raised the limit exception")
         elif [hexf(unhex(x)) for x in vec["ok"]] != [hexf(unhex(s["ok"])) for s in single]:
             F.add("vector", "vector %s differs from the per-prior values %s" % (vec["ok"], [s["ok"] for s in single]))
-        if not c["ignore"]:
-            for spec, x in zip(c["priors"], vec["ok"]):
-                lo, hi, v = unhex(spec["lo"]), unhex(spec["hi"]), unhex(x)
-                if not within(lo, v, hi):
-                    # tagged with the class of THIS prior only, so that the known finding cannot hide another family
-                    F.add("out-of-limit" if prior_classes(spec) else "out-of-limit-other",
-                          "vector entry %r outside the limits [%r, %r] of its %s prior" % (v, lo, hi, spec["family"]))
+        for spec, x, uh in zip(c["priors"], vec["ok"], c["us"]):
+            lo, hi, v, u = unhex(spec["lo"]), unhex(spec["hi"]), unhex(x), unhex(uh)
+            if not c["ignore"] and not within(lo, v, hi):
+                F.add("out-of-limit", "vector entry %r outside the limits [%r, %r] of its %s prior" % (v, lo, hi, spec["family"]))
+            if 0 < u < 1 and (not c["ignore"] or within(lo, v, hi)):
+                mm = Decl(spec).mismatch(v, u)
+                if mm:
+                    F.add("quantile", "vector entry for unit value %r: %s" % (u, mm), input_classes(c, spec, u))
     else:
         if vec.get("exc") != "PriorLimitException":
             F.add("exception", "vector_from_unit_vector raised %s: %s" % (vec.get("exc"), vec.get("msg")))
         elif not any_exc:
             F.add("gate", "vector_from_unit_vector raised although every prior returns a value")
+        else:
+            for spec, s, uh in zip(c["priors"], single, c["us"]):
+                u = unhex(uh)
+                if "ok" not in s and not c["ignore"] and must_return(Decl(spec), unhex(spec["lo"]), unhex(spec["hi"]), u):
+                    F.add("must-return", "vector_from_unit_vector raised for unit value %r of a %s prior whose declared quantile "
+                          "lies inside its limits" % (u, spec["family"]), input_classes(c, spec, u))
     return F.items
 
 
@@ -644,7 +903,11 @@ def coq_case(c, r, only_obs=None):
             if only_obs is not None and k != only_obs:
                 continue
             terms += coq_obs(o, x)
-        return "CPrior %s %s %s" % (coq_prior(c["prior"]), coq_table(r["table"]), clist(terms))
+        msg = c.get("msg_prior") or c["prior"]
+        gate = c.get("gate_prior") or c["prior"]
+        if msg != gate:
+            return "CDerived %s %s %s %s" % (coq_prior(msg), coq_prior(gate), coq_table(r["table"]), clist(terms))
+        return "CPrior %s %s %s" % (coq_prior(msg), coq_table(r["table"]), clist(terms))
     vec = r["vector"]
     if "ok" in vec:
         e = "(VOk %s)" % clist([cf(x) for x in vec["ok"]])
@@ -673,30 +936,37 @@ def case_key(c):
 
 def run(ctx):
     ctx.rule = ("a case is one prior (family uniform / log-uniform / gaussian / log-gaussian, finite parameters, limits incl. far "
-                "tails, tiny widths, >14-decimal limits, up to 600 decades) with a sorted set of unit values (0, 1, 2^-53, 1-2^-53, "
-                "denormals, grid, random, last-bit neighbours, a few malformed) observed through message.value_for, Prior.value_for "
-                "(limits enforced / ignored), unit_value_for round trips, lower/upper_unit_limit and seeded Prior.random; or one "
-                "Collection of 1-6 priors through vector_from_unit_vector.  A prior case is non-trivial when it carries >= 8 distinct "
-                "unit values strictly inside (0,1); a vector case when it has >= 2 priors whose attribute order differs from id "
-                "order; distinct = distinct abstract input (prior parameters + observations)")
+                "tails, tiny widths, >14-decimal limits, up to 600 decades; built by its constructor or derived through "
+                "with_limits / new / from_dict / pickle / deepcopy) with a sorted set of unit values (0, 1, 2^-53, 1-2^-53, "
+                "denormals, grid, random, last-bit neighbours, a few malformed; float / int / numpy scalars) observed through "
+                "message.value_for, Prior.value_for (limits enforced by default argument or keyword / ignored), unit_value_for "
+                "round trips, lower/upper_unit_limit and seeded Prior.random (default and explicit bounds); or one Collection of "
+                "1-6 priors through vector_from_unit_vector.  A prior case is non-trivial when it carries >= 8 distinct unit "
+                "values strictly inside (0,1); a vector case when it has >= 2 priors whose attribute order differs from id "
+                "order; distinct = distinct abstract input (prior parameters + derivation + observations)")
     ctx.trusted = [
         "Coq 8.16.1 kernel incl. vm_compute; primitive floats are kernel primitives; Reals axioms of the standard library "
-        "(ClassicalDedekindReals.sig_forall_dec, sig_not_dec, functional_extensionality_dep)",
+        "(ClassicalDedekindReals.sig_forall_dec, sig_not_dec, functional_extensionality_dep, classic)",
         "scipy.special erfinv/ndtr/ndtri, numpy log10/power/exp/log: modelled as Section variables with hypotheses (Phi strictly "
         "increasing with inverse PhiInv, sqrt2*erfinv(t) = PhiInv((1+t)/2)); in the correspondence they are finite oracle tables "
-        "taken directly from the library by harness/impl/c02_oracle.py",
-        "numpy scalar round(x, 14) modelled as rint(x*1e14)/1e14 in binary64 (bit-exact in the correspondence); over the reals an "
-        "arbitrary monotone function within 5e-15 of the identity; over Q the exact decimal rounding",
+        "taken directly from the library by harness/impl/c02_oracle.py.  binary64 scipy does NOT satisfy the hypotheses to the "
+        "last bit (known finding last-bit-nonmonotone) nor in the lower tail (known finding normal-lower-tail-cancellation)",
+        "numpy scalar round(x, 14) modelled as rint(x*1e14)/1e14 in binary64 and scipy.stats.norm.cdf as ndtr((x-loc)/scale) "
+        "(bit-exact in the correspondence for the library versions recorded in coverage.notes); over the reals an arbitrary "
+        "monotone idempotent function within 5e-15 of the identity; over Q the exact decimal rounding",
         "correspondence harness c02.py / impl/c02_impl.py / impl/c02_oracle.py; Python float.hex, random.Random(seed).random()",
-        "not modelled: the JAX code path (USE_JAX=1), array-valued unit arguments, prior construction errors",
+        "not modelled / not run: the JAX code path (USE_JAX=1; jax is not installed, assert_within_limits returns at once there, "
+        "so the gate part of the property does not hold under JAX), array-valued unit arguments, with_message / project",
     ]
     ctx.assumptions = [
-        "theorems over R hold for unit values strictly inside (0,1) (erfinv is infinite at the ends); the ends, nan and binary64 "
+        "theorems over R hold for unit values strictly inside (0,1) (erfinv is infinite at the ends); the ends have the theorems "
+        "C02_value_for_at_zero/_at_one_* under the single assumption ndtr(sqrt2*erfinv(-1/+1)) = 0/1; nan and binary64 "
         "rounding are covered by the bit-exact correspondence and by the oracle only",
-        "the property oracle compares with stdlib references (statistics.NormalDist, math.erfc) within conditioning-aware tolerances; "
-        "it is a search aid, not evidence",
-        "C02_uniform_within_limits is refuted for the current code (rounding after the limit check); the guarded theorem needs "
-        "limits that are fixed points of the rounding; the repaired variant is proved without guard",
+        "the property oracle compares with stdlib references (statistics.NormalDist, math.erfc); it demands a RETURN whenever the "
+        "declared quantile lies inside the limits (unit margin 1e-9 relative + 2.3e-16 above 6e-8), compares tails in score "
+        "space relative to |z|, and demands that random() does not raise on a non-empty unit window; a search aid, not evidence",
+        "UniformPrior.value_for is modelled as repaired in 9c8aefe (code_variant = Repaired); the theorems named "
+        "C02_before_fix_* describe the code before that commit and are kept as the record of the finding",
     ]
     built = ctx.build()
     cases = gen_cases(ctx)
@@ -712,6 +982,7 @@ def run(ctx):
         if "__error__" in out:
             ctx.obligation("impl-driver", "harness", False, out["__error__"][-800:])
             return
+        ctx.notes["library_versions"] = out.get("versions")
         for k, res in enumerate(out["results"]):
             results[ci + k * len(chunks)] = res
     coq_cases, coq_idx = [], []
@@ -724,38 +995,55 @@ def run(ctx):
             ctx.hist("observations", len(c["obs"]))
         else:
             ctx.hist("vector-size", len(c["priors"]))
-        classes = case_classes(c)
-        for cl in classes:
-            ctx.hist("class", cl)
-        if "exc" in r or "ctor_exc" in r.get("ok", {}):
+        if "exc" in r:
             ctx.oracle["failures"] += 1
-            ctx.failure("oracle", "driver/constructor raised: %s" % json.dumps(r)[:300], c, impl=r)
+            ctx.failure("oracle", "driver raised: %s" % json.dumps(r)[:300], c, impl=r)
             continue
         ro = r["ok"]
+        if "ctor_exc" in ro:
+            if ro["ctor_exc"] == c.get("expect_ctor_exc"):
+                # LogGaussianPrior.with_limits cannot build the prior at all (part of the with_limits finding)
+                ctx.oracle["failures"] += 1
+                ctx.failure("oracle", "[derived] %s raised %s: %s" % (c["derived"]["how"], ro["ctor_exc"], ro.get("msg")), c,
+                            classes=[CL_WITHLIMITS], impl=ro)
+            else:
+                ctx.oracle["failures"] += 1
+                ctx.failure("oracle", "constructor / derivation raised: %s" % json.dumps(ro)[:300], c, impl=ro)
+            continue
+        if c.get("expect_ctor_exc"):
+            ctx.oracle["failures"] += 1
+            ctx.failure("oracle", "derivation was expected to raise %s but returned a prior" % c["expect_ctor_exc"], c, impl=ro.get("described"))
+            continue
         fails = oracle_prior(c, ro) if c["kind"] == "prior" else oracle_vector(c, ro)
         if c["kind"] == "prior":
             for o, x in zip(c["obs"], ro["obs"]):
                 ctx.hist("outcome:" + o["t"], "ok" if ("ok" in x or "v" in x or "lower" in x) else x.get("exc"))
         seen = set()
-        for kind_, msg in fails:
-            if kind_ in seen:
+        for kind_, msg, classes in fails:
+            key = (kind_, tuple(classes))
+            if key in seen:
                 continue
-            seen.add(kind_)
+            seen.add(key)
             ctx.oracle["failures"] += 1
-            # the known finding explains silent out-of-limit values only; every other failure kind stays a violation
-            ctx.failure("oracle", "[%s] %s" % (kind_, msg), c, classes=classes if kind_ == "out-of-limit" else [],
-                        impl={"failures": fails[:4]})
+            ctx.hist("oracle-failure", kind_ + ("/" + "+".join(classes) if classes else ""))
+            # a known finding explains only the failure kinds it is about
+            allowed = {CL_RATIO: ("must-return", "random-raises", "unit-range", "unit-value", "inverse"),
+                       CL_TAIL: ("must-return", "random-raises", "quantile", "random-quantile", "inverse"),
+                       CL_LASTBIT: ("monotone-last-bit",),
+                       CL_WITHLIMITS: ("must-return", "quantile")}
+            eff = [cl for cl in classes if kind_ in allowed.get(cl, ())]
+            ctx.failure("oracle", "[%s] %s" % (kind_, msg), c, classes=eff, impl={"failures": [list(f) for f in fails[:4]]})
         cc = coq_case(c, ro)
         if cc:
             coq_cases.append(cc)
             coq_idx.append(i)
         if i % 23 == 0:
-            small = {"kind": c["kind"], "prior": c.get("prior"), "priors": c.get("priors"), "n_obs": len(c.get("obs", [])),
-                     "first_obs": c.get("obs", [])[:3], "us": c.get("us")}
+            small = {"kind": c["kind"], "prior": c.get("prior"), "derived": c.get("derived"), "priors": c.get("priors"),
+                     "n_obs": len(c.get("obs", [])), "first_obs": c.get("obs", [])[:3], "us": c.get("us")}
             ctx.sample({k: v for k, v in small.items() if v is not None}, limit=8)
     if os.path.exists(os.path.join(common.COQ, "C02", "Model.vo")):
         hdr = ctx.header(["Common.PyFloat", "Model"])
-        bad, log = ctx.eval_cases(hdr, "case", "check_case", coq_cases, shard=24 if ctx.tier == "thorough" else 12)
+        bad, log = ctx.eval_cases(hdr, "case", "check_case", coq_cases, shard=40 if ctx.tier == "thorough" else 20)
         if bad:
             for n_bad, b in enumerate(bad[:5]):
                 i = coq_idx[b]
@@ -771,11 +1059,12 @@ def run(ctx):
                     if bad1:
                         detail = [{"obs": c["obs"][idx[j]], "impl": ro["obs"][idx[j]]} for j in bad1[:4]]
                 fails = oracle_prior(c, ro) if c["kind"] == "prior" else oracle_vector(c, ro)
+                unexplained = [f for f in fails if not f[2]]
                 ctx.failure("correspondence", "model and implementation disagree on a %s case%s" % (
                     c["kind"] if c["kind"] == "vector" else c["prior"]["family"],
                     (": " + json.dumps(detail)[:600]) if detail else ""),
                     c, impl={"disagreeing_observations": detail}, broken={"kind": "correspondence", "name": "C02.check_case"},
-                    found_input=bool(fails))
+                    found_input=bool(unexplained))
     else:
         ctx.obligation("correspondence:cases", "correspondence", False, "Model.vo not built")
 
@@ -783,13 +1072,15 @@ def run(ctx):
 MANIFEST = {
     "text": "Coq 8.16 theorems over one generic Gallina model of the four prior families (the transform stack the code builds: "
             "erfinv-based normal quantile, phi / linear-shift / log10 / log transforms, limit gate, 14-digit rounding, unit limits, "
-            "random draws, vector_from_unit_vector): monotonicity, cdf-inverse, declared quantile, limit gate and random-draw "
-            "containment for all parameters and all unit values in (0,1) over the reals (special functions as hypotheses), a "
-            "by-induction theorem for arbitrary transform stacks, the rounding-after-check defect refuted/guarded/repaired over Q; "
+            "random draws, derived priors, vector_from_unit_vector): monotonicity, cdf-inverse, declared quantile, limit gate, "
+            "end points and never-raising random draws for all parameters and all unit values in (0,1) over the reals (special "
+            "functions as hypotheses), a by-induction theorem for arbitrary transform stacks, the rounding/gate interplay over Q; "
             "the same Gallina terms instantiated with binary64 + oracle tables from scipy are compared bit-for-bit (vm_compute) with "
-            "the running code, plus a direct property oracle with stdlib references on every generated case",
+            "the running code, plus a direct property oracle with stdlib references that demands a return wherever the declared "
+            "quantile lies inside the limits, on every generated case",
     "note": "Trusted: Coq kernel + vm_compute + stdlib Reals axioms, the harness, scipy/numpy special functions (hypotheses over R; "
-            "oracle tables in the correspondence). Theorems over R cover unit values strictly inside (0,1); end points, nan, "
-            "binary64 rounding effects are covered only by correspondence and oracle on generated cases. JAX path not covered.",
+            "oracle tables in the correspondence). The theorems are over exact reals: in binary64 the property fails in four "
+            "recorded ways (known findings with float witnesses: log-uniform ranges whose ratio overflows, lower-tail cancellation "
+            "of the normal quantile below 6e-8, last-bit non-monotonicity, with_limits keeping the old message). JAX path not covered.",
     "technique": "machine-checked proof in Coq (generic model instantiated over R, Q and binary64) + vm_compute correspondence",
 }
